@@ -757,14 +757,22 @@ def tf_internal(text, prog, workdir):
     return p.sources()
 
 
-def tf_functions(text, prog, workdir):
-    from loki.transformations.inline import inline_functions
-    if not calls_to(prog, lambda u: u['kind'] == 'function' and not u['host']):
-        raise NotApplicable('no function reference')
-    p = Parsed(prog)
-    for name in bottom_up(prog):
-        inline_functions(p.routine(name))
-    return p.sources()
+def tf_functions(explicit=True):
+    """inline_functions on every routine, callees first.  explicit: pass the module functions of the program as
+    `functions=` (the default functions=None trips over intrinsic references, slice functions-all)."""
+    def transform(text, prog, workdir):
+        from loki.transformations.inline import inline_functions
+        if not calls_to(prog, lambda u: u['kind'] == 'function' and not u['host']):
+            raise NotApplicable('no function reference')
+        p = Parsed(prog)
+        funs = tuple(p.routine(u['name']) for u in prog['units'] if u['kind'] == 'function' and not u['host'])
+        for name in bottom_up(prog):
+            if explicit:
+                inline_functions(p.routine(name), functions=funs)
+            else:
+                inline_functions(p.routine(name))
+        return p.sources()
+    return transform
 
 
 def tf_elemental(text, prog, workdir):
@@ -1028,13 +1036,30 @@ def expr_candidates(prog, limit=24):
     return out
 
 
+def sig_of(kind, msg):
+    """lib_fm.failure_signature with quoted identifiers abstracted (stable across generated names)."""
+    return re.sub(r"[‘'`][A-Za-z_0-9]+[’']", 'ID', F.failure_signature(kind, msg))
+
+
+def generate(rng, features, applicable, nstmts=(3, 6), depth=2, tries=40, post=None):
+    """One program of the slice (regenerated until the slice's transformation statically applies) + inputs."""
+    for _ in range(tries):
+        g = GenX(rng, features)
+        prog = g.program(nstmts=rng.randint(*nstmts), depth=depth)
+        if post is not None:
+            post(rng, prog)
+        if applicable(prog):
+            return prog, g.inputs(prog, 3)
+    raise MachineryError(f'generator: no applicable program in {tries} tries for features {sorted(features)}')
+
+
 def report(ctx, label, cases, results, fails, transform, per_group=3, rounds=5):
     """Violations with a normal-form key  label:signature:tags(shrunk program).  Failures are grouped by
     signature; up to per_group members with different tags are shrunk (all candidates of one round go through
     one behaviour_check) and reported under the tags of the shrunk program."""
     groups = {}
     for idx, kind, msg in fails:
-        groups.setdefault(F.failure_signature(kind, msg), []).append((idx, kind, msg))
+        groups.setdefault(sig_of(kind, msg), []).append((idx, kind, msg))
     ctx.cover[f'{label}_failure_groups'] = {k: len(v) for k, v in groups.items()}
     reps = []
     for sig, members in sorted(groups.items()):
@@ -1064,7 +1089,7 @@ def report(ctx, label, cases, results, fails, transform, per_group=3, rounds=5):
         if not batch:
             break
         res, fl, _ = F.behaviour_check(ctx, f'{label}-shrink', batch, transform)
-        failed = {i: F.failure_signature(kind, msg) for i, kind, msg in fl}
+        failed = {i: sig_of(kind, msg) for i, kind, msg in fl}
         pos = 0
         for r in reps:
             if r['phase'] > 1:
